@@ -69,6 +69,11 @@ class SymPattern:
         self.pattern = pat.pattern
         self.flags = pat.flags
         self._items = None
+        self._error = None
+        try:                      # eagerly: the wrapper must not change state when it is used (C15 snapshots module objects)
+            self._compile()
+        except Unsupported as e:
+            self._error = e
 
     def __getattr__(self, n):
         return getattr(self._real, n)
@@ -77,6 +82,8 @@ class SymPattern:
     def _compile(self):
         if self._items is not None:
             return self._items
+        if self._error is not None:
+            raise self._error
         import re._parser as sp
         is_bytes = isinstance(self.pattern, bytes)
         if self.flags & (re.MULTILINE | re.IGNORECASE | re.DOTALL | re.VERBOSE):
